@@ -1,4 +1,5 @@
 import Mkdb.Proofs.Session
+import Mkdb.Proofs.SessionInv9
 /-!
 # C17 — databases are isolated and survive any USE pattern
 
@@ -10,7 +11,8 @@ flush timer of a relation service that was never closed, file handles, the clock
 by the harness with the real timer (partial by nature for the schedule quantifier).
 -/
 namespace Mkdb.Session
-open Mkdb.Engine Mkdb.Store Mkdb.Sql
+open Mkdb.Engine Mkdb.Sql
+open Mkdb.Store hiding Stmt   -- (`Store.Stmt`, a row statement of the replay proofs, is not meant here)
 
 /-- statements that are routed to the selected database -/
 def routed : Stmt → Bool
@@ -302,5 +304,154 @@ theorem C17_show (s : Sess) :
 example : let s : Sess := { dbs := [("a", {}), ("b", {})], cur := some "a" }
     (getDB s "b").isSome = true ∧ s.cur ≠ some "b" ∧ routed (.delete [] none) = true := by
   refine ⟨by decide, by decide, rfl⟩
+
+/-! ### contents: the session abstracts to one plain database per name
+
+`SessAbs s w` (Proofs/SessionInv6): `w name` is the plain in-memory database (`Spec.SDB`: tables, their
+declared columns, their rows in order) that the database `name` of the session holds - every database
+satisfies the invariant `DbInv` for it, every database other than the selected one is closed.  The
+theorems below say what `exec` and `restart` do to `w`. -/
+
+/-- `runOuts` is the history runner of the invariant theorems -/
+theorem runOuts_eq_runAll (s : Sess) (sts : List Stmt) : runOuts s sts = runAll s sts := by
+  induction sts generalizing s with
+  | nil => rfl
+  | cons st rest ih => simp only [runOuts, runAll, ih]
+
+/-- **C17.contents_are_what_a_reader_sees**: in a session that abstracts to the plain databases `w`, what
+`RelationService.Fetch` - the source of every SELECT - returns for a table of a database is the declared
+columns and exactly the rows, value for value and in order, that the plain database `w name` holds for
+it. -/
+theorem C17_contents_are_what_a_reader_sees (s : Sess) (w : String → Spec.SDB) (h : SessAbs s w)
+    (name : String) (db : DB) (hg : getDB s name = some db) (t : Bytes) (tb : Spec.STable)
+    (hfind : Spec.findTable (w name) t = some tb) : Reads db t tb.cols (tb.rows.map (·.vals)) := by
+  obtain ⟨pt, sch, tbls, hi, _⟩ := h.dbs (name, db) (getDB_mem hg)
+  exact hi.reads hfind
+
+/-- non-vacuity: the table `t` of the selected database of `sessT` -/
+example : SessAbs sessT (fun _ => sdbA0) ∧ getDB sessT "d" = some tableDB ∧
+    Spec.findTable sdbA0 tname = some ⟨tname, schemaA, []⟩ :=
+  ⟨sessAbs_sessT, by simp [getDB, sessT], rfl⟩
+
+/-- **C17.empty_session**: the session before any statement abstracts (to anything: it has no database). -/
+theorem C17_empty_session (w : String → Spec.SDB) : SessAbs {} w := sessAbs_empty w
+
+/-- **C17.use_changes_no_database**: USE - of another database, of the selected one, of a missing one,
+with an invalid name - changes the contents of NO database: the session abstracts to the same plain
+databases `w` afterwards (the database it leaves is flushed and re-opened: a closed database for the same
+plain database), it does not crash, and the invariant holds again (so every database accepts statements
+as before). -/
+theorem C17_use_changes_no_database (s : Sess) (w : String → Spec.SDB) (h : SessAbs s w) (name : Bytes) :
+    SessAbs (exec s (.use name)).1 w ∧ (exec s (.use name)).2 ≠ Out.panic :=
+  use_sessAbs h name
+
+/-- **C17.any_number_of_uses**: switching between databases with USE any number of times - back and
+forth, re-selecting the current one, naming databases that do not exist - leaves every database's
+contents as they were. -/
+theorem C17_any_number_of_uses (s : Sess) (w : String → Spec.SDB) (h : SessAbs s w) (names : List Bytes) :
+    SessAbs (runOuts s (names.map Stmt.use)).1 w := by
+  induction names generalizing s with
+  | nil => exact h
+  | cons n rest ih =>
+    simp only [List.map_cons, runOuts]
+    exact ih _ (use_sessAbs h n).1
+
+/-- **C17.create_database_adds_an_empty_database**: an accepted CREATE DATABASE adds a database whose
+contents are EMPTY (no tables) under the canonical name and changes the contents of no other database;
+a refused one (`C17_create_existing`, `C17_invalid_name_refused`, `C17_empty_name_refused`) changes no
+contents at all; either way the invariant holds again. -/
+theorem C17_create_database_adds_an_empty_database (s : Sess) (w : String → Spec.SDB) (h : SessAbs s w)
+    (name : Bytes) :
+    ∃ w', SessAbs (exec s (.createDatabase name)).1 w' ∧
+      (∀ m, (getDB s m).isSome = true → w' m = w m) ∧
+      ((exec s (.createDatabase name)).2 = Out.ok → w' (canon name) = [] ∧ ∀ m, m ≠ canon name → w' m = w m) ∧
+      ((exec s (.createDatabase name)).2 ≠ Out.ok → w' = w) := by
+  obtain ⟨w', h1, _, h3, h4⟩ := createDatabase_sessAbs h name
+  by_cases hok : (exec s (.createDatabase name)).2 = Out.ok
+  · refine ⟨w', h1, h3, fun _ => ?_, fun hne => absurd hok hne⟩
+    rw [h4 hok]
+    exact ⟨setW_same w _ _, fun m hm => setW_other w _ hm⟩
+  · have hs : (exec s (.createDatabase name)).1 = s := exec_create_fst s name hok
+    refine ⟨w, by rw [hs]; exact h, fun _ _ => rfl, fun h0 => absurd h0 hok, fun _ => rfl⟩
+
+/-- **C17.statements_change_only_the_selected_database**: whatever a statement does - accepted, refused,
+refused at a later row - the contents of every database other than the selected one are what they were
+(each database holds only what was written while it was selected), and the invariant holds again.
+`StmtSide`: the side conditions of the statement-level theorems for the selected database
+(`C18_session_statement_never_crashes`). -/
+theorem C17_statements_change_only_the_selected_database (s : Sess) (w : String → Spec.SDB) (h : SessAbs s w)
+    (st : Stmt) (hside : StmtSide s st) :
+    ∃ w', SessAbs (exec s st).1 w' ∧ ∀ m, s.cur ≠ some m → (getDB s m).isSome = true → w' m = w m := by
+  obtain ⟨w', h1, _, h3⟩ := exec_sessAbs h st hside
+  exact ⟨w', h1, h3⟩
+
+/-- **C17.accepted_statement_changes_the_selected_database_as_the_plain_model_says**: a statement routed
+to the selected database that the plain model accepts (`Spec.specStmt`; side conditions `StmtRoom`)
+succeeds, and the selected database then holds exactly the plain model's result; every other database
+holds what it held. -/
+theorem C17_accepted_statement (s : Sess) (w : String → Spec.SDB) (h : SessAbs s w) (n : String)
+    (hc : s.cur = some n) (db : DB) (hg : getDB s n = some db) (st : Stmt)
+    (hk : (∃ t c, st = .createTable t c) ∨ (∃ t c r, st = .insert t c r) ∨ (∃ t a c, st = .update t a c) ∨
+      (∃ t c, st = .delete t c))
+    (hroom : ∀ pt sch tbls, DbInv db (w n) pt sch tbls → StmtRoom db pt sch tbls st)
+    (sdb' : Spec.SDB) (hspec : Spec.specStmt (w n) st = some sdb') :
+    (exec s st).2 = Out.ok ∧ SessAbs (exec s st).1 (setW w n sdb') := by
+  obtain ⟨pt, sch, tbls, hi, _⟩ := h.dbs (n, db) (getDB_mem hg)
+  obtain ⟨db', pt', sch', tbls', e, hi'⟩ := hi.accepted [] st (hroom pt sch tbls hi) sdb' hspec
+  rw [exec_routed s st hk]
+  unfold onCurrent
+  simp only [hc, hg, e]
+  exact ⟨trivial, h.setCur hc hi'⟩
+
+/-- **C17.restart_preserves_every_database**: for a session that satisfies the invariant, `restart` -
+close (flush) the selected database, run start-up recovery on every database, re-open the files -
+succeeds: NO recovery fails.  Afterwards the session has the same database names, nothing selected, and
+abstracts to THE SAME plain databases `w`: every database holds the same tables with the same rows
+(`C17_contents_are_what_a_reader_sees`), and the invariant holds again - every database is closed - so
+the `exec` theorems apply again: after a USE each database accepts new rows as before
+(`C17_accepted_statement`, `C18_session_statement_never_crashes`).  (A crash WITHOUT the close is C02:
+`C02_rounds_no_recovery_fails`, under its side conditions `PtSelf` / `FreshM`.) -/
+theorem C17_restart_preserves_every_database (s : Sess) (w : String → Spec.SDB) (h : SessAbs s w) :
+    ∃ s', restart s = some s' ∧ SessAbs s' w ∧ names s' = names s ∧ s'.cur = none := by
+  obtain ⟨s', e, h1, h2, h3, _⟩ := restart_sessAbs h
+  exact ⟨s', e, h1, h2, h3⟩
+
+/-- **C17.restart_after_any_history**: from the empty session, after ANY history of statements that meets
+the side conditions, restart succeeds and preserves the contents of every database, and the session goes
+on without a crash. -/
+theorem C17_restart_after_any_history (sts : List Stmt) (hok : SessOK {} sts) :
+    ∃ w s', SessAbs (runOuts {} sts).1 w ∧ restart (runOuts {} sts).1 = some s' ∧ SessAbs s' w ∧
+      names s' = names (runOuts {} sts).1 ∧
+      ∀ st, StmtSide s' st → (exec s' st).2 ≠ Out.panic ∧ SessInv (exec s' st).1 := by
+  rw [runOuts_eq_runAll]
+  obtain ⟨⟨w, hw⟩, _⟩ := runAll_sessAbs sts {} (fun _ => []) (sessAbs_empty _) hok
+  obtain ⟨s', e, h1, h2, _⟩ := restart_sessAbs hw
+  refine ⟨w, s', hw, e, h1, h2, fun st hside => ?_⟩
+  obtain ⟨w', k1, k2, _⟩ := exec_sessAbs h1 st hside
+  exact ⟨k2, w', k1⟩
+
+/-- non-vacuity of `SessOK`: every history of CREATE DATABASE / USE / SHOW DATABASES / SELECT / DELETE /
+UPDATE statements meets it (`sessOK_plain`, `C18_plain_histories_never_crash`) -/
+example : SessOK {} [.createDatabase [100], .use [100], .delete tname none, .use [120], .showDatabases] :=
+  sessOK_plain _ _ (fun st hst => by
+    simp only [List.mem_cons, List.not_mem_nil, or_false] at hst
+    rcases hst with rfl | rfl | rfl | rfl | rfl
+    all_goals first | exact trivial | exact tname_ne_sys)
+
+/-- non-vacuity: the session whose selected database is the one `CREATE DATABASE; CREATE TABLE t (a INT)`
+produces abstracts to the plain database with the empty table `t (a INT)`; `INSERT INTO t VALUES (5),
+(6)` is accepted there with room, so `C17_accepted_statement` and `C17_restart_preserves_every_database`
+apply to it and to the session after it -/
+example : SessAbs sessT (fun _ => sdbA0) ∧ sessT.cur = some "d" ∧ getDB sessT "d" = some tableDB ∧
+    (∀ pt sch tbls, DbInv tableDB sdbA0 pt sch tbls →
+      StmtRoom tableDB pt sch tbls (.insert tname [] [[.int 5], [.int 6]])) ∧
+    Spec.specStmt sdbA0 (.insert tname [] [[.int 5], [.int 6]]) = some sdbA1 := by
+  refine ⟨sessAbs_sessT, rfl, by simp [getDB, sessT], ?_, rfl⟩
+  intro pt sch tbls hi
+  obtain ⟨rfl, rfl, htr⟩ := dbInv_tableDB_unique hi
+  refine ⟨room_insert56.1, fun tr schema hm hs => ?_⟩
+  have := htr tr hm
+  subst this
+  exact room_insert56.2 tT schema (List.mem_singleton.mpr rfl) hs
 
 end Mkdb.Session
